@@ -725,6 +725,10 @@ MANIFEST = dict(
     'of setPhaseOffset calls.',
     note='numba JIT of count_bits trusted to implement its py_func source '
     '(differential-tested on seeded values); PSK phase offsets are literals; '
-    'min-distance pairs = adjacent slots checked on the table for M<=256',
+    'min-distance pairs = adjacent slots checked on the table for M<=256'
+    ' Concrete data-representation / scale / boundary probes of the real'
+    ' code (dtype, container and memory-layout variants, argument'
+    ' immutability, magnitudes) accompany the symbolic runs; they are'
+    ' differential runs, not solver verdicts.',
     technique='symbolic execution on bit-vector proxies + AST-to-SMT loop '
     'unwinding (z3 QF_BV); table lookup queries (z3 arrays)')
